@@ -94,8 +94,8 @@ class FilterOracles(Oracles):
         if name == "clone" and tr.endswith("Clone"):
             return recv(it, args[0])
         if self.cfg.get("stop_after_ranges") and name == "into_iter" and args and isinstance(args[0], VecV) and args[0].elems \
-                and all(isinstance(e, Adt) and e.name.endswith("ops::Range") for e in args[0].elems):
-            raise StopRun([(e.fields[0].val, e.fields[1].val) for e in args[0].elems])
+                and all(isinstance(e, Adt) and (e.name.endswith("ops::Range") or e.name.endswith("ops::RangeInclusive")) for e in args[0].elems):
+            raise StopRun([(e.fields[0].val, e.fields[1].val + (1 if e.name.endswith("Inclusive") else 0)) for e in args[0].elems])
         if name in ("sort_by_key", "sort_by_cached_key", "sort_unstable_by_key", "sort_by", "sort_unstable_by", "sort", "sort_unstable"):
             sl = args[0]
             v = it.read(sl.cell, sl.path)
@@ -256,6 +256,40 @@ def filter_tables(F, rep, rule="C05"):
         rep.violated(rule + ".1", "filter_kmers/pass-tiling", "filter_kmers: %s" % tile_problems[0], site=site, witness={"kind": "row", "count": len(tile_problems)})
     elif not inc:
         rep.holds(rule + ".1", "filter_kmers/pass-tiling", "the bucket ranges of the passes tile [0,256) as consecutive half-open intervals for 14 memory budgets (1 … 5000 slices)")
+    # ---- membership sweep: one observation per bucket value 0..255; whatever the representation of the pass ranges, every
+    # observation must be collected in exactly one pass
+    sweep_problems = []
+    sweep_inc = []
+    sweep_names = ["o%d" % b for b in range(256)]
+    sweep_passes = (2, 3, 4, 5, 7, 16, 100, 255, 256) if rep.tier == "thorough" else (2, 3)
+    for slices in sweep_passes:
+        want_kmers = ((slices - 1) * 10 ** 9 + 15) // 16 + 1
+        cfg = {"obs": [sweep_names], "size": 16, "report_all": True, "valid": {}, "flip": {o: False for o in sweep_names}, "lens": {0: want_kmers + 2},
+               "stranded": False, "memory": 1, "cls": {o: i for i, o in enumerate(sweep_names)}, "bucket": list(range(256)),
+               "plain_bucket": {o: (i + 37) % 256 for i, o in enumerate(sweep_names)}}
+        rep.evaluations += 1
+        try:
+            h, out = run_filter(F, body, cfg)
+        except (Undecided, Unsupported) as e:
+            sweep_inc.append(str(e))
+            continue
+        except Diverge as e:
+            sweep_problems.append("memory budget giving %d passes: filter_kmers diverges: %s" % (slices, e))
+            continue
+        seen = {}
+        for kn, obs in h.summ:
+            for (o, k, ex, lab) in obs:
+                seen[o] = seen.get(o, 0) + 1
+        bad = [(int(o[1:]), seen.get(o, 0)) for o in sweep_names if seen.get(o, 0) != 1]
+        if bad:
+            sweep_problems.append("memory budget giving %d passes: k-mers of bucket %d are collected in %d passes instead of exactly one (%d bucket value(s) affected: %s)" % (
+                slices, bad[0][0], bad[0][1], len(bad), [b for b, _ in bad][:8]))
+    if sweep_problems:
+        rep.violated(rule + ".1", "filter_kmers/pass-membership", "filter_kmers: %s" % sweep_problems[0], site=site, witness={"kind": "row", "count": len(sweep_problems)})
+    elif sweep_inc:
+        rep.inconclusive(rule + ".1", "filter_kmers/pass-membership", "filter_kmers: %s" % sweep_inc[0])
+    else:
+        rep.holds(rule + ".1", "filter_kmers/pass-membership", "for %s passes, a k-mer of every bucket value 0..255 is collected in exactly one pass" % (list(sweep_passes),))
     for slices in ((1, 2, 3, 7) if rep.tier == "thorough" else (1, 3)):
         lens = lens_for(slices)
         for stranded in ((False, True) if rep.tier == "thorough" else (False,)):
@@ -415,28 +449,25 @@ def summarizer_tables(F, rep, rule="C05.6"):
         problems = []
         inc = []
         rows = 0
-        for n in (0, 1, 2, 3):
-            class H(LinOracles):
-                def on_call(self, it, fn, args, dest_ty, term, caller):
-                    p = fn.get("path", "")
-                    name = p.split("::")[-1]
-                    if name in ("sort", "sort_unstable") and args:
-                        self.observe("sorted", True)
-                        return Tup([])
-                    if name in ("dedup",) and args:
-                        self.observe("dedup", bool(self.obs.get("sorted")))
-                        return Tup([])
-                    return NotImplemented
+        import itertools
+        label_seqs = [()]
+        for n in (1, 2, 3):
+            label_seqs += list(itertools.product((5, 3, 9), repeat=n)) if kind == "set" else [tuple(range(n))]
+        for labels in label_seqs:
+            n = len(labels)
 
             def mk(script):
-                h = H(script)
+                h = LinOracles(script)
                 h.assume({"min": 1}, lo=0)
                 return h
 
-            def run(h, n=n):
+            def run(h, n=n, labels=labels):
                 it = Interp(F, False, h)
                 me = struct_of(F, adt, {"min_kmer_obs": atom_int(64, "min")})
-                items = [Tup([Opaque("K", {"kmer"}), exts_sym("e%d" % i), Opaque("D", {"d"}, {"d": i})]) for i in range(n)]
+                # the caller's data: opaque for the counting summarizer; for the set summarizer small concrete labels (a scripted
+                # scenario: which observations carry equal labels and how the labels are ordered), the extensions stay symbolic
+                items = [Tup([Opaque("K", {"kmer"}), exts_sym("e%d" % i),
+                              Int(32, False, val=labels[i]) if kind == "set" else Opaque("D", {"d"}, {"d": i})]) for i in range(n)]
                 return it.call_body(body, [Ref(Cell(me, "self")), IterV("owned", (Ref(Cell(VecV(items), "items")), 0, n))])
             for a, out, h in explore(mk, run):
                 rows += 1
@@ -465,16 +496,16 @@ def summarizer_tables(F, rep, rule="C05.6"):
                     for j in range(4):
                         want[j] = bv.t_or(want[j], var("e%d" % i, j))
                 if not (isinstance(ev, Int) and list(ev.getbits()) == want):
-                    problems.append("the summarised extensions of %d observations are %r, not the union of the observations' extensions" % (n, ev))
+                    problems.append("the summarised extensions of %d observations (labels %s) are %r, not the union of all the observations' extensions" % (n, list(labels), ev))
                 if kind == "count":
                     if not (isinstance(data, Int) and data.is_conc() and data.val == n):
                         problems.append("the reported count for %d observations is %r" % (n, data))
                 else:
-                    ds = [x.info.get("d") for x in data.elems] if isinstance(data, VecV) else None
-                    if ds is None or sorted(ds) != list(range(n)):
-                        problems.append("the reported data of %d observations is %s; every observation's datum must be collected (then sorted and de-duplicated)" % (n, ds))
-                    if n and not (h.obs.get("sorted") and h.obs.get("dedup") == [True]):
-                        problems.append("the collected data are not sorted and then de-duplicated (sorted=%s, dedup-after-sort=%s)" % (h.obs.get("sorted"), h.obs.get("dedup")))
+                    ds = [x.val for x in data.elems] if isinstance(data, VecV) and all(isinstance(x, Int) and x.is_conc() for x in data.elems) else None
+                    if ds is None:
+                        inc.append("the reported data are %r" % (data,))
+                    elif ds != sorted(set(labels)):
+                        problems.append("observations labelled %s are summarised as %s; specified: the distinct labels in ascending order %s" % (list(labels), ds, sorted(set(labels))))
         if problems:
             rep.violated(rule, nm, "%s::summarize: %s" % (nm, problems[0]), site=F.site(body, body["line"]), witness={"kind": "row", "count": len(problems)})
         elif inc:
